@@ -181,6 +181,26 @@ func (p *pathRun) hashInts(fr *frame, fam string, tag value, hasTag bool, ins []
 		p.addPC(c.Gt(out, c.IntC64(0)))
 	}
 	p.markNonNeg(out)
+	if p.summ["hash-injective"] {
+		// collision resistance of the framed hash (C16): equal outputs have equal argument lists
+		seen := false
+		for _, prev := range p.hashIntApps {
+			if prev.out == out {
+				seen = true
+				break
+			}
+			if prev.name == name && len(prev.args) == len(args) {
+				var eqs []*smt.Term
+				for i := range args {
+					eqs = append(eqs, c.Eq(prev.args[i], args[i]))
+				}
+				p.axiom("hash-summary-injective", c.Implies(c.Eq(prev.out, out), c.And(eqs...)))
+			} else {
+				p.axiom("hash-summary-injective", c.Not(c.Eq(prev.out, out)))
+			}
+		}
+		_ = seen
+	}
 	p.hashIntApps = append(p.hashIntApps, hashIntApp{name, args, out})
 	return p.newBig(out)
 }
